@@ -199,10 +199,28 @@ func runCluster(r *ev.Run) (map[string]interface{}, int64, int64) {
 	if len(cases) > 0 {
 		rot = int(uint64(r.Seed) % uint64(len(cases)))
 	}
+	budget := 4 * time.Minute
+	if r.Thorough() {
+		budget = 9 * time.Minute
+	}
+	skipped := make([]bool, len(cases))
 	ev.Parallel(len(cases), 8, func(k int) {
 		i := (k + rot) % len(cases)
+		if r.OverBudget(budget) {
+			skipped[i] = true
+			return
+		}
 		results[i], errs[i] = runChild(cases[i])
 	})
+	nskipped := 0
+	for _, sk := range skipped {
+		if sk {
+			nskipped++
+		}
+	}
+	if nskipped > 0 {
+		r.NotExhaustive(fmt.Sprintf("part c: time budget %v reached, %d of %d cases not run", budget, nskipped, len(cases)))
+	}
 
 	// Confirmation: a case with violations is re-run 3× in fresh processes; only
 	// oracles that fail in every re-run are reported.
@@ -213,7 +231,7 @@ func runCluster(r *ev.Run) (map[string]interface{}, int64, int64) {
 	}
 	var confs []*conf
 	for i, res := range results {
-		if errs[i] == nil && len(res.Violations) > 0 {
+		if !skipped[i] && errs[i] == nil && len(res.Violations) > 0 {
 			confs = append(confs, &conf{i: i})
 		}
 	}
@@ -254,6 +272,9 @@ func runCluster(r *ev.Run) (map[string]interface{}, int64, int64) {
 		samples                                                                 int
 	)
 	for i, res := range results {
+		if skipped[i] {
+			continue
+		}
 		if errs[i] != nil {
 			fmt.Fprintf(os.Stderr, "MACHINERY-ERROR: c14 case %s: %v\n", cases[i].Name(), errs[i])
 			r.NotExhaustive("part c: case " + cases[i].Name() + " produced no result")
@@ -338,7 +359,7 @@ func runCluster(r *ev.Run) (map[string]interface{}, int64, int64) {
 	// samples: one per interesting exit path
 	seen := map[string]bool{}
 	for i, res := range results {
-		if errs[i] != nil || seen[res.Path] || len(seen) >= 5 {
+		if skipped[i] || errs[i] != nil || seen[res.Path] || len(seen) >= 5 {
 			continue
 		}
 		seen[res.Path] = true
@@ -348,6 +369,7 @@ func runCluster(r *ev.Run) (map[string]interface{}, int64, int64) {
 	cov := map[string]interface{}{
 		"cases":                       len(cases),
 		"cases_executed":              executed,
+		"cases_skipped_budget":        nskipped,
 		"named_cases":                 len(cases) - len(sweep),
 		"sweep_cases":                 len(sweep),
 		"sweep_rpc_labels":            labels,
